@@ -7,7 +7,7 @@ ID = "C11"
 TAG = "stream"
 EXTRACT = "FA/Extract/ExtractStream.v"
 DRIVER = "driver_stream.ml"
-COQ_FILES = ["FA/Proofs/HeapFacts.v", "FA/Proofs/StreamFrame.v", "FA/Properties/C11.v"]
+COQ_FILES = ["FA/Proofs/HeapFacts.v", "FA/Proofs/StreamFrame.v", "FA/Proofs/CopyTreeFacts.v", "FA/Properties/C11.v"]
 
 LEVEL = ("Coq theorems over the executable state machine Model/Stream.v on a heap of AST node objects (Model/Heap.v): "
          "streams_immutable (for every history and every prefix, the dump and item type - and every non-field attribute - of "
@@ -250,9 +250,146 @@ def regraft_oracle(ctx, only=None):
                      "datasets with other class models; every earlier stream's dump and item type re-read after every step)" % n)
 
 
+# ---------------------------------------------------------------- Model/CopyTree.v against util_ast._copy_of_tree
+# Random trees of ast node objects, some of them carrying non-field attributes (the three a stream's nodes carry, the library's
+# own marks _old_ast/_ignore, a user's).  View of a tree: a node's children are its child nodes in ast.iter_fields order without the
+# field-less singleton-like nodes (expr_context, operators), which go into the node's class text with its atoms.  Object identity:
+# the nodes of the input are numbered in preorder 0..N-1; in the result, an object of the input keeps its number and the new
+# objects are numbered N, N+1, ... in preorder - the order in which the code makes them.  The model must give the same list of
+# identities (evaluated inside Coq by vm_compute), and the code's result must dump like its input and carry the same attributes.
+
+COPY_ATTRS = ["_func_adl_executor", "_eds_object", "_q_metadata", "_old_ast", "_ignore", "note"]
+_FIELDLESS = None
+
+
+def _kids(n):
+    import ast
+    global _FIELDLESS
+    if _FIELDLESS is None:
+        _FIELDLESS = (ast.expr_context, ast.operator, ast.unaryop, ast.cmpop, ast.boolop)
+    return [c for c in ast.iter_child_nodes(n) if not isinstance(c, _FIELDLESS)]
+
+
+def _extra_attrs(n):
+    return sorted(set(vars(n)) - set(n._fields) - set(n._attributes))
+
+
+def _rand_tree(r, depth):
+    import ast
+    L = ast.Load()
+    k = r.random()
+    if depth <= 0 or k < 0.2:
+        n = r.choice([lambda: ast.Name(id=r.choice("exyj"), ctx=L), lambda: ast.Constant(value=r.choice([1, 2.5, "s", True]))])()
+    elif k < 0.45:
+        n = ast.Call(func=ast.Attribute(value=_rand_tree(r, depth - 1), attr=r.choice(["pt", "met", "info"]), ctx=L),
+                     args=[_rand_tree(r, depth - 1) for _ in range(r.randrange(0, 3))],
+                     keywords=[ast.keyword(arg="k", value=_rand_tree(r, depth - 2))] if r.random() < .2 else [])
+    elif k < 0.6:
+        n = ast.BinOp(left=_rand_tree(r, depth - 1), op=r.choice([ast.Add(), ast.Mult()]), right=_rand_tree(r, depth - 1))
+    elif k < 0.7:
+        n = ast.Lambda(args=ast.arguments(posonlyargs=[], args=[ast.arg(arg=r.choice("exyj"))], kwonlyargs=[], kw_defaults=[], defaults=[]),
+                       body=_rand_tree(r, depth - 1))
+    elif k < 0.8:
+        n = ast.Tuple(elts=[_rand_tree(r, depth - 1) for _ in range(r.randrange(0, 4))], ctx=L)
+    elif k < 0.9:
+        n = ast.Call(func=ast.Name(id=r.choice(["Select", "Where", "MetaData", "EventDataset"]), ctx=L),
+                     args=[_rand_tree(r, depth - 1) for _ in range(r.randrange(0, 3))], keywords=[])
+    else:
+        n = ast.Subscript(value=_rand_tree(r, depth - 1), slice=_rand_tree(r, depth - 2), ctx=L)
+    if r.random() < 0.22:
+        for a in r.sample(COPY_ATTRS, r.choice([1, 1, 1, 2])):
+            setattr(n, a, {"x": 1} if a == "_q_metadata" else (n if a == "_old_ast" else True))
+    return n
+
+
+def copytree_correspondence(ctx):
+    import ast
+    import os
+    import core
+    import bridge
+    from func_adl.util_ast import _copy_of_tree
+
+    r = ctx.rng
+    n_cases = ctx.budget(60, 600)
+    lines = ["From Coq Require Import String List.", "Import ListNotations.", "Local Open Scope string_scope.",
+             "From FA.Model Require Import CopyTree.", ""]
+    kinds = {"new": 0, "kept": 0}
+    done = 0
+    for ci in range(n_cases):
+        t = _rand_tree(r, r.choice([2, 3, 3, 4]))
+        if ci % 3 == 0:
+            t = ast.Lambda(args=ast.arguments(posonlyargs=[], args=[ast.arg(arg="e")], kwonlyargs=[], kw_defaults=[], defaults=[]), body=t)
+        order = []
+
+        def pre(n):
+            order.append(n)
+            for c in _kids(n):
+                pre(c)
+        pre(t)
+        if len(order) > 60:
+            continue
+        index = {id(n): i for i, n in enumerate(order)}
+        N = len(order)
+        before = ast.dump(t)
+        res = _copy_of_tree(t)
+        ctx.evaluations += 1
+        got, carried = [], []
+        cnt = [N]
+
+        def walk(n):
+            if id(n) in index:
+                got.append(index[id(n)])
+                kinds["kept"] += 1
+            else:
+                got.append(cnt[0])
+                cnt[0] += 1
+                kinds["new"] += 1
+            carried.append(_extra_attrs(n))
+            for c in _kids(n):
+                walk(c)
+        walk(res)
+        wit = {"oracle": "copytree", "tree_dump": before, "attrs": [(i, _extra_attrs(n)) for i, n in enumerate(order) if _extra_attrs(n)]}
+        if ast.dump(res) != before or ast.dump(t) != before or carried != [_extra_attrs(n) for n in order]:
+            ctx.fail("failing-input", "_copy_of_tree changed the tree it was given or returned another query / other attributes: %s" % before[:300],
+                     wit, key=core.digest({"p": ID, "copytree": before, "a": wit["attrs"]}))
+            continue
+
+        def g(n):
+            return "(Node %d [%s] %s [%s])" % (index[id(n)], "; ".join(bridge.coq_str(a) for a in _extra_attrs(n)),
+                                              bridge.coq_str(type(n).__name__), "; ".join(g(c) for c in _kids(n)))
+        lines.append("Example copy_%d : (ids (fst (copy %s %d)), snd (copy %s %d)) = ([%s], %d)." % (
+            ci, g(t), N, g(t), N, "; ".join(str(i) for i in got), cnt[0]))
+        lines.append("Proof. vm_compute. reflexivity. Qed.")
+        done += 1
+    path = os.path.join(core.WORK, "copytree_%s.v" % ID)
+    with open(path, "w") as f:
+        f.write("\n".join(lines) + "\n")
+    rc, out = core.sh(["timeout", "600", "coqc", "-Q", os.path.join(core.COQ, "FA"), "FA", path], cwd=core.WORK, timeout=660)
+    ctx.corr_cases += done
+    ctx.count("copytree", "objects of the result that are new", kinds["new"])
+    ctx.count("copytree", "objects of the result that are the caller's (kept)", kinds["kept"])
+    if rc != 0:
+        ctx.corr_disagreements += 1
+        ctx.fail("no-failing-input-found", "correspondence copy (Model/CopyTree.v, evaluated inside Coq) vs util_ast._copy_of_tree broke: "
+                 "the code shares / renews other objects than the model", {"correspondence": "copytree", "file": path, "coq_output": out[-1500:]})
+    else:
+        ctx.notes.append("copy-of-tree correspondence: %d random attributed trees, the identities of the result's objects as the model "
+                         "computes them (vm_compute inside Coq) equal the code's" % done)
+    for ext in (".vo", ".vok", ".vos", ".glob"):
+        try:
+            os.remove(path[:-2] + ext)
+        except OSError:
+            pass
+    try:
+        os.remove(os.path.join(core.WORK, ".copytree_%s.aux" % ID))
+    except OSError:
+        pass
+
+
 def run(ctx):
     sc.check_histories(ctx, ID, histories(ctx), "history")
     regraft_oracle(ctx)
+    copytree_correspondence(ctx)
 
 
 def replay(ctx, w):
